@@ -11,6 +11,7 @@ package system
 import (
 	"fmt"
 	"testing"
+	"time"
 
 	"github.com/mdlayher/corerad/internal/verifh"
 )
@@ -136,6 +137,24 @@ func TestVerifC11(t *testing.T) {
 			for k, res := range dvExecAll(t, s) {
 				dvEmit(out, fmt.Sprintf("%s#%d", id, k), s, res, true, "stream:long-flapping", dvModeTag(s), fmt.Sprintf("autoconf0:%v", s.Autoconf0))
 			}
+		}
+	}
+
+	// (1c) slow dials: the same scripts when every interface lookup takes 6 s, 45 s or 10 min (heavy interface churn)
+	rs := verifh.NewRand(verifh.Seed(), "C11slow")
+	ns := 40
+	if verifh.Thorough() {
+		ns = 400
+	}
+	for i := 0; i < ns; i++ {
+		s := dvRandomScript(rs, true)
+		s.Slow = []time.Duration{6 * time.Second, 45 * time.Second, 10 * time.Minute}[i%3]
+		id := fmt.Sprintf("slow%d", i)
+		if !dvWants(out, id) {
+			continue
+		}
+		for k, res := range dvExecAll(t, s) {
+			dvEmit(out, fmt.Sprintf("%s#%d", id, k), s, res, true, "stream:slow-dial", dvModeTag(s), fmt.Sprintf("autoconf0:%v", s.Autoconf0))
 		}
 	}
 
